@@ -286,6 +286,24 @@ def gen_cases(kind, seed, n):
             ops = gen_mutations(r, names, 2 + r.below(9))
             cases.append({"id": "h%d" % i, "spec": sp, "snap_each": False,
                           "ops": ops + [("snap",)] + query_battery(r, names, full=(i % 4 == 0))})
+        elif kind == "c03" and i % 50 == 49:
+            # a graph above the serial/parallel threshold (21-24 nodes): the algorithms' rayon arms must
+            # traverse the stored edges just like the serial arms.  One construction call that every GraphSpecs
+            # accepts (all nodes listed, no self-loop, no repeated pair), then colliding add_edge calls.
+            wmode = "real"
+            big = r2.shuffle(list(range(1, 60)))[:21 + r2.below(4)]
+            pairs = [(big[j], big[j + 1]) for j in range(len(big) - 1) if r2.below(8)]
+            for _ in range(len(big)):
+                a, b = r2.pick(big), r2.pick(big)
+                if a != b and (a, b) not in pairs and (b, a) not in pairs:
+                    pairs.append((a, b))
+            es = [(a, b, 1 + r2.below(3), None) for (a, b) in pairs]
+            ops = [("new_from", ([(x, None) for x in big], es))]
+            for _ in range(2):
+                a, b = r2.pick(pairs)
+                ops.append(("add_edge", ((b, a) if r2.below(2) else (a, b)) + (1 + r2.below(3), None)))
+            ops += [("q", "alg_sssp", [x, 1]) for x in big[:3]] + [("q", "alg_cc", [1]), ("q", "alg_bc", [1])]
+            cases.append({"id": "h%d" % i, "spec": sp, "snap_each": True, "ops": ops, "wmode": wmode})
         elif kind == "c03":
             wmode = "nan" if r.below(4) == 0 else "real"
             ops = gen_mutations(r, names, 2 + r.below(9), wmode=wmode, collide=60)
